@@ -382,6 +382,27 @@ def success_successor(b, call_block):
     return None
 
 
+def rule_same_slot(ctx, R="C09/same-slot"):
+    """the 12 bytes patched into the destination are the slot that was just filled in the image: in dump_dir_entry the index handed to
+    set_value_at and the index handed to location_of_index are the same value of the same counter (and the bytes copied are
+    buffer[rva .. rva + data_size] of that location)."""
+    b = ctx.body(R, DS + "::dump_dir_entry")
+    if b is None:
+        return
+    o = Origin(b)
+    sets = [(x, o.call_args(x)) for x, t in b.calls(lambda c: (c.short or "").endswith("MemoryArrayWriter::set_value_at"))]
+    locs = [(x, o.call_args(x)) for x, t in b.calls(lambda c: (c.short or "").endswith("MemoryArrayWriter::location_of_index"))]
+    ctx.floor(R, "set_value_at in dump_dir_entry", len(sets), 1)
+    ctx.floor(R, "location_of_index in dump_dir_entry", len(locs), 1)
+    if len(sets) == 1 and len(locs) == 1:
+        i_set, i_loc = nosite(strip(sets[0][1][3])), nosite(strip(locs[0][1][1]))
+        ctx.check(i_set == i_loc and i_set == ("field", ("param", 1), "curr_idx"), R, "same-index", b.where(locs[0][0]),
+                  "the slot filled in the image and the slot copied to the destination are both slot curr_idx",
+                  "the image slot is %s but the destination is patched from slot %s: the destination keeps a stale or empty entry" % (show(i_set)[:80], show(i_loc)[:80]))
+    elif sets and locs:
+        ctx.unproven(R, "same-index", b.where(0), "more than one slot write/lookup in dump_dir_entry")
+
+
 def rule_sole_writer(ctx):
     R = "C09/sole-writer"
     prog = ctx.prog
@@ -464,6 +485,7 @@ def run(ctx):
     rule_save_restore(ctx)
     rule_append_flush(ctx)
     rule_sole_writer(ctx)
+    rule_same_slot(ctx)
     from rules import c16
     c16.rule_no_mut_view(ctx, rule="C09/append-only-image")
     # an aborted request leaves the destination equal to the image as of the last flush only if, inside one flush, the slot patch
